@@ -509,6 +509,87 @@ impl Plan {
                 }
             }
         }
+        // repetition of a unit that the grammar lets repeat or a lenient parser may skip (interim responses, blank lines,
+        // folded lines, empty fragments, white space), far beyond what TLC enumerates: a parser that handles "one more"
+        // by calling itself is total on every short input and dies on a long run (added after the seeded change
+        // `C03-r5-http-response-parser-skips-100-continue` - unbounded recursion over 100 Continue - was missed)
+        for n in &self.deep {
+            let n = *n;
+            let mut v: Vec<(&'static str, String, Vec<u8>)> = Vec::new();
+            for (code, phrase) in [("100", "Continue"), ("102", "Processing"), ("103", "Early Hints"), ("199", "X")] {
+                let unit = format!("HTTP/1.1 {} {}\r\n\r\n", code, phrase).into_bytes();
+                let mut r = unit.repeat(n);
+                v.push(("resp", format!("repeat-interim-{}-open", code), r.clone()));
+                r.extend_from_slice(b"HTTP/1.1 200 OK\r\nContent-Length: 2\r\n\r\nok");
+                v.push(("resp", format!("repeat-interim-{}", code), r));
+            }
+            for (p, first) in [("req", &b"GET / HTTP/1.1\r\n"[..]), ("resp", &b"HTTP/1.1 200 OK\r\n"[..])] {
+                let mut r = b"\r\n".repeat(n);
+                r.extend_from_slice(first);
+                r.extend_from_slice(b"Host: a\r\n\r\n");
+                v.push((p, "repeat-leading-crlf".into(), r));
+                let mut r = first.to_vec();
+                r.extend_from_slice(b"X-A: b\r\n");
+                r.extend(b" c\r\n".repeat(n));
+                r.extend_from_slice(b"\r\n");
+                v.push((p, "repeat-folded-lines".into(), r));
+                let mut r = first.to_vec();
+                r.extend(b"A: b\r\n".repeat(n));
+                r.extend_from_slice(b"\r\n");
+                v.push((p, "repeat-same-header".into(), r));
+            }
+            let mut r = b"HTTP/1.1 200 OK\r\nTransfer-Encoding: chunked\r\n\r\n".to_vec();
+            r.extend(b"1\r\na\r\n".repeat(n));
+            v.push(("resp", "repeat-chunks-open".into(), r.clone()));
+            r.extend_from_slice(b"0\r\n");
+            r.extend(b"T: v\r\n".repeat(n));
+            r.extend_from_slice(b"\r\n");
+            v.push(("resp", "repeat-chunks-trailers".into(), r));
+            let mut m = vec![0x01u8, 0x00];
+            m.extend([0x00u8, 0x00].repeat(n));
+            v.push(("wsmsg", "repeat-empty-fragments-open".into(), m.clone()));
+            m.extend_from_slice(&[0x80, 0x00]);
+            v.push(("wsmsg", "repeat-empty-fragments".into(), m));
+            let mut m = [0x8au8, 0x00].repeat(n);
+            m.extend_from_slice(&[0x81, 0x01, b'a']);
+            v.push(("wsmsg", "repeat-pongs-then-text".into(), m));
+            let mut m = [0x89u8, 0x00].repeat(n);
+            m.extend_from_slice(&[0x81, 0x01, b'a']);
+            v.push(("wsmsg", "repeat-pings-then-text".into(), m));
+            for ws in [&b" "[..], &b"\n"[..], &b"\r\n\t"[..]] {
+                let mut j = ws.repeat(n);
+                j.extend_from_slice(b"[1,");
+                j.extend(ws.repeat(n));
+                j.extend_from_slice(b"2]");
+                j.extend(ws.repeat(n));
+                v.push(("json", "repeat-whitespace".into(), j));
+            }
+            let mut j = b"[".to_vec();
+            j.extend(b"[],".repeat(n));
+            j.extend_from_slice(b"0]");
+            v.push(("json", "repeat-empty-siblings".into(), j));
+            let mut j = b"\"".to_vec();
+            j.extend(b"\\n".repeat(n));
+            j.push(b'"');
+            v.push(("json", "repeat-escapes".into(), j));
+            for unit in [&b"\n"[..], &b"# c\n"[..], &b"   \n"[..], &b"k v\n"[..]] {
+                let mut c = unit.repeat(n);
+                c.extend_from_slice(b"server {\n");
+                c.extend(unit.repeat(n));
+                c.extend_from_slice(b"}\n");
+                c.extend(unit.repeat(n));
+                v.push(("conf", "repeat-lines".into(), c));
+            }
+            let mut c = b"server {\n".to_vec();
+            c.extend(b"s {\n}\n".repeat(n));
+            c.extend_from_slice(b"}\n");
+            v.push(("conf", "repeat-sibling-sections".into(), c));
+            for (p, fam, b) in v {
+                if self.alpha.contains_key(p) && !emit(p, &fam, b, &mut id) {
+                    return;
+                }
+            }
+        }
         if self.big {
             let mut v: Vec<(&'static str, &str, Vec<u8>)> = Vec::new();
             let r64k = rng.bytes(65536);
